@@ -34,7 +34,7 @@ def worker(argv):
     driver.arm_watchdog(a["budget"] * 3 + 300)
     lifecycle.warmup()
     stats = {}
-    runner = lifecycle.Runner(stats)
+    runner = lifecycle.Runner({})
     n = 0
     states = 0
     crash_sites = set()
@@ -48,7 +48,9 @@ def worker(argv):
         n += 1
         ops_total += res["info"]["ops_executed"]
         states += len(res["info"]["states"])
-        crash_sites |= res["info"]["crash_sites"]
+        crash_sites |= {tuple(x) for x in res["info"]["crash_sites"]}
+        for k, v in res["info"]["stats"].items():
+            stats[k] = stats.get(k, 0) + v
         digests.append([idx, digest_obj([res["result"], res.get("vclass"), res["log"]])])
         if res["result"] == "violation":
             nviol += 1
